@@ -29,6 +29,12 @@ A slice OBJECT (`w = slice(a, b)`; `buf[:, w]`, or `buf[:, slice(a, b)]`) is the
 a re-bound name, or a name that is a slice on one branch only, is an ordinary index again; the bounds' sources are those
 at the point where the slice is built).
 
+A PARAMETER of a private module-level helper whose every use is a direct call seen by this analysis (never an entry point, never
+passed around as a value, never named outside the analysed files) is what its callers pass: when ALL call sites agree that the
+argument is a boolean mask / the result of a sort or topk / a python list, dict or str, the parameter is one too (`inherited_param_facts`;
+any disagreement, a default, `*args`, a stray reference ⇒ nothing is inherited). Its value-range guard comes from the call sites as before
+(`established`, `constructed_via_callers`).
+
 Regenerates lean/TE/Gen/IndexSites.lean on every run (`generate`)."""
 from __future__ import annotations
 import ast, copy, json, os, select, subprocess, sys, time
@@ -154,6 +160,7 @@ class FuncInfo:
         self.checks: list[dict] = []                          # value checks that raise
         self.sites: list[Site] = []
         self.returns: Origin = CONST
+        self.param_facts: dict = {}                           # param -> (is_bool, pair, container) agreed on by ALL call sites
 
 
 class ModuleInfo:
@@ -202,7 +209,8 @@ class Analyzer(ast.NodeVisitor):
         for p in fi.params:
             if p != "self":
                 ann = self._annotation(p)
-                self.env[p] = Origin(frozenset({(p, ())}), container=ann)
+                is_bool, pair, cont = fi.param_facts.get(p, (False, None, None))
+                self.env[p] = Origin(frozenset({(p, ())}), is_bool=is_bool, pair=pair, container=ann or cont)
 
     def _annotation(self, p):
         for a in self.fi.node.args.posonlyargs + self.fi.node.args.args + self.fi.node.args.kwonlyargs:
@@ -735,6 +743,95 @@ def load_modules(repo: Path) -> list[ModuleInfo]:
     return mods
 
 
+def unanalysed_text(repo: Path, mods) -> str:
+    """source of every python file of the package that `load_modules` does not analyse (they may name a helper too)."""
+    seen = {m.path for m in mods}
+    out = []
+    for p in sorted((repo / "torcheval").rglob("*.py")):
+        if p not in seen:
+            try:
+                out.append(p.read_text())
+            except OSError:
+                pass
+    return "\n".join(out)
+
+
+def inherited_param_facts(mods, all_funcs, outside: str) -> dict:
+    """id(helper) -> {param: (is_bool, pair, container)} for the private module-level helpers all of whose uses are direct calls
+    recorded by the analysis, where ALL call sites agree on that property of the actual argument. Conservative everywhere else:
+    an entry point, a method, a helper that is referenced other than as the callee of a recorded call (passed as a value, called
+    in a nested function / assert / decorator, reached as `mod.helper`, named in a file outside the analysis, defined twice),
+    a call with `*args` / `**kwargs`, a parameter left to its default at some call site — nothing is inherited."""
+    by_module = {m.rel: m for m in mods}
+    by_name: dict[str, list] = {}
+    for fi in all_funcs:
+        if not fi.cls:
+            by_name.setdefault(fi.name, []).append(fi)
+    cand = {id(fi): fi for fi in all_funcs
+            if not fi.cls and fi.name.startswith("_") and not is_entry(fi) and fi.module.funcs.get(fi.name) is fi
+            and fi.node.args.vararg is None and fi.node.args.kwarg is None}
+    names = {fi.name for fi in cand.values()}
+    # definitions: a name bound more than once at module level (a second `def`, an assignment, a class) is not ours
+    for m in mods:
+        bound: dict[str, int] = {}
+        for n in ast.walk(m.tree):
+            if isinstance(n, (ast.FunctionDef, ast.AsyncFunctionDef, ast.ClassDef)) and n.name in names:
+                bound[n.name] = bound.get(n.name, 0) + 1
+            elif isinstance(n, ast.Name) and isinstance(n.ctx, (ast.Store, ast.Del)) and n.id in names:
+                bound[n.id] = bound.get(n.id, 0) + 2
+            elif isinstance(n, ast.arg) and n.arg in names:
+                bound[n.arg] = bound.get(n.arg, 0) + 2
+        for name, k in bound.items():
+            if k > 1 or name not in m.funcs:
+                for fi in list(cand.values()):
+                    if fi.name == name and (fi.module is m or name in m.imports):
+                        cand.pop(id(fi), None)
+    import re
+    for fi in list(cand.values()):
+        if re.search(r"\b%s\b" % re.escape(fi.name), outside):
+            cand.pop(id(fi), None)
+    # recorded direct calls
+    sites: dict[int, list] = {}
+    callee_nodes: set = set()
+    for fi in all_funcs:
+        for name, node, line, aos, kos in fi.calls:
+            if isinstance(node.func, ast.Name) and name in names:
+                g = resolve(fi, name, by_module, by_name)
+                if g is not None and id(g) in cand and g is not fi:
+                    sites.setdefault(id(g), []).append((node, aos, kos))
+                    callee_nodes.add(id(node.func))
+    # every other mention of the name (load of the bare name, `x.<name>`) makes the helper escape
+    for m in mods:
+        for n in ast.walk(m.tree):
+            if isinstance(n, ast.Attribute) and n.attr in names:
+                for fi in list(cand.values()):
+                    if fi.name == n.attr:
+                        cand.pop(id(fi), None)
+            elif isinstance(n, ast.Name) and n.id in names and isinstance(n.ctx, ast.Load) and id(n) not in callee_nodes:
+                for fi in list(cand.values()):
+                    if fi.name == n.id and (fi.module is m or n.id in m.imports):
+                        cand.pop(id(fi), None)
+    out: dict[int, dict] = {}
+    for gid, g in cand.items():
+        cs = sites.get(gid, [])
+        if not cs or any(isinstance(a, ast.Starred) for node, _, _ in cs for a in node.args) \
+                or any(k.arg is None for node, _, _ in cs for k in node.keywords):
+            continue
+        facts = {}
+        for i, p in enumerate(g.params):
+            actual = [kos[p] if p in kos else (aos[i] if i < len(aos) else None) for _, aos, kos in cs]
+            if any(a is None for a in actual):
+                continue
+            is_bool = all(a.is_bool and a.paths for a in actual)
+            pair = actual[0].pair if all(a.pair == actual[0].pair for a in actual) else None
+            cont = actual[0].container if all(a.container == actual[0].container for a in actual) else None
+            if is_bool or pair or cont:
+                facts[p] = (is_bool, pair, cont)
+        if facts:
+            out[gid] = facts
+    return out
+
+
 def analyse(repo: Path):
     mods = load_modules(repo)
     all_funcs: list[FuncInfo] = []
@@ -742,11 +839,15 @@ def analyse(repo: Path):
         all_funcs += list(m.funcs.values())
         for c in m.classes.values():
             all_funcs += list(c.values())
-    # two passes: function summaries (what a helper returns) feed the second pass
+    outside = unanalysed_text(repo, mods)
+    # two passes: function summaries (what a helper returns) feed the second pass; more while the properties that the parameters
+    # of private helpers inherit from their call sites still change (each round is derived from a sound one, so every round is sound)
     summaries: dict = {}
-    for _ in range(2):
+    facts: dict = {}
+    for it in range(6):
         for fi in all_funcs:
             fi.sites, fi.calls, fi.checks, fi.returns = [], [], [], CONST
+            fi.param_facts = facts.get(id(fi), {})
             cursor = fi.module.cursor_attrs.get(fi.cls, {}) if fi.cls else {}
             Analyzer(fi, summaries, cursor).run()
         summaries = {}
@@ -754,6 +855,13 @@ def analyse(repo: Path):
             summaries[(fi.module.rel, fi.qual)] = fi.returns
             if not fi.cls:
                 summaries[("*", fi.name)] = fi.returns
+        new_facts = inherited_param_facts(mods, all_funcs, outside)
+        if it >= 1 and new_facts == facts:
+            break
+        if it == 5:
+            # no fixpoint within the budget: fall back to the analysis without inherited properties
+            new_facts = {}
+        facts = new_facts
     return mods, all_funcs
 
 
